@@ -36,6 +36,7 @@ def run(ctx):
     ctx.each(flowalg.accumulator_rule, ctx, repo, "R01i")
     ctx.each(flowalg.link_registration_rule, ctx, repo, "R01k")
     ctx.each(flowalg.step_wiring_rule, ctx, repo, "R01l")
+    ctx.each(flowalg.stateless_step_rule, ctx, repo, "R01m")
 
 
 # ---------------------------------------------------------------------------------------------- R01a
